@@ -1640,6 +1640,50 @@ class _LocalAnnotations(ast.NodeTransformer):
         return a
 
 
+def _is_literal_constant(e: ast.AST) -> bool:
+    "a literal, or arithmetic / a tuple of literals (10**5, -1, (0, 1)): immutable and effect-free"
+    if isinstance(e, ast.Constant):
+        return True
+    if isinstance(e, ast.UnaryOp) and isinstance(e.op, (ast.USub, ast.UAdd)):
+        return _is_literal_constant(e.operand)
+    if isinstance(e, ast.BinOp) and isinstance(e.op, (ast.Add, ast.Sub, ast.Mult, ast.Pow, ast.FloorDiv, ast.Mod)):
+        return _is_literal_constant(e.left) and _is_literal_constant(e.right)
+    if isinstance(e, ast.Tuple):
+        return all(_is_literal_constant(x) for x in e.elts)
+    return False
+
+
+def _inline_new_module_constants(tree: ast.Module, modname: str, log: list[str]) -> None:
+    """G22: a module-level `NAME = <literal constant>` that is new w.r.t. the reference, bound exactly once in the module and never
+    declared `global`, is substituted into every use in the module (a constant hoisted out of an expression)"""
+    known = reference().get("module_assigns", {}).get(modname)
+    if known is None:
+        return
+    cands: dict[str, ast.AST] = {}
+    for st in tree.body:
+        if isinstance(st, (ast.Assign, ast.AnnAssign)) and getattr(st, "value", None) is not None:
+            tg = st.targets if isinstance(st, ast.Assign) else [st.target]
+            if len(tg) == 1 and isinstance(tg[0], ast.Name) and tg[0].id not in known and _is_literal_constant(st.value):
+                cands[tg[0].id] = st.value
+    if not cands:
+        return
+    stores: dict[str, int] = {}
+    for n in ast.walk(tree):
+        if isinstance(n, ast.Name) and isinstance(n.ctx, (ast.Store, ast.Del)) and n.id in cands:
+            stores[n.id] = stores.get(n.id, 0) + 1
+        elif isinstance(n, (ast.Global, ast.Nonlocal)):
+            for nm in n.names:
+                stores[nm] = stores.get(nm, 0) + 2
+        elif isinstance(n, ast.arg) and n.arg in cands:
+            stores[n.arg] = stores.get(n.arg, 0) + 2  # shadowed by a parameter somewhere: leave it alone
+    consts = {k: v for k, v in cands.items() if stores.get(k, 0) == 1}
+    if not consts:
+        return
+    _Subst(consts).visit(tree)
+    for k in consts:
+        log.append(f"inlined new module constant {k}")
+
+
 def new_module_level_helpers(trees: dict[str, ast.Module]) -> dict[str, dict[str, ast.FunctionDef]]:
     "module -> {name: FunctionDef} of module-level functions that are new w.r.t. the reference (candidates for cross-module inlining)"
     ref = reference()["functions"]
@@ -1673,6 +1717,7 @@ def normalize_module(tree: ast.Module, modname: str, log: list[str] | None = Non
     known_mod = any(q.startswith(modname + ".") for q in ref)
     if not known_mod:
         return _fix(tree)
+    _inline_new_module_constants(tree, modname, log)
     new = [(q, f, c, b) for q, f, c, b in fns if q not in ref]
     # R1: inline new helpers (only those without decorators other than staticmethod/classmethod)
     if new or imported:
